@@ -32,8 +32,8 @@ static uint16_t   V16;
 static uint32_t   V32, V32ro, V32wo, V32nid, V32sub, V32range, V32user;
 static uint8_t    Dom3[3], DomA[SDO_DS1], DomB[SDO_DS2];
 static CO_OBJ_DOM DomO3, DomOA, DomOB;
-static uint8_t    Str3[4], Str5[6], Str12[13];
-static CO_OBJ_STR StrO3, StrO5, StrO12;
+static uint8_t    Str3[4], Str5[6], Str12[13], StrV[SDO_DS2 + 1];
+static CO_OBJ_STR StrO3, StrO5, StrO12, StrOV;
 
 /* user types */
 static uint32_t UtSize(CO_OBJ *o, CO_NODE *n, uint32_t w) { (void)o; (void)n; (void)w; return 4; }
@@ -56,7 +56,7 @@ static const CO_OBJ_TYPE UtUser  = { UtSize, 0, UtRead, UtUserWrite, 0 };
 
 enum { K_BASIC, K_DOMAIN, K_STRING, K_RANGE, K_USER };
 typedef struct { uint16_t idx; uint8_t sub, rd, wr, kind; uint32_t size; uint8_t *mem; uint8_t direct, nid; } ODesc;
-enum { O_U8, O_U16, O_U32, O_U32D, O_RO, O_WO, O_NID, O_DOM3, O_DOMA, O_DOMB, O_STR3, O_STR5, O_STR12, O_SUB0, O_SUB1, O_RANGE, O_USER, O_N };
+enum { O_U8, O_U16, O_U32, O_U32D, O_RO, O_WO, O_NID, O_DOM3, O_DOMA, O_DOMB, O_STR3, O_STR5, O_STR12, O_STRV, O_SUB0, O_SUB1, O_RANGE, O_USER, O_N };
 static ODesc OBJ[O_N];
 static uint8_t MV[O_N][SDO_DS2 + 1];       /* the model's copy of every object's SDO-visible value */
 static uint8_t MV0[O_N][SDO_DS2 + 1];      /* ... and the initial values */
@@ -93,6 +93,8 @@ static void sdo_world_build(uint32_t nmt_operational)
     DomO3.Offset = 0; DomO3.Size = 3; DomO3.Start = Dom3;
     DomOA.Offset = 0; DomOA.Size = SDO_DS1; DomOA.Start = DomA;
     DomOB.Offset = 0; DomOB.Size = SDO_DS2; DomOB.Start = DomB;
+    for (i = 0; i < 9; i++) StrV[i] = (uint8_t)('A' + i);
+    StrV[9] = 0; StrOV.Offset = 0; StrOV.Start = StrV;
     StrO3.Offset = 0; StrO3.Start = Str3; StrO5.Offset = 0; StrO5.Start = Str5; StrO12.Offset = 0; StrO12.Start = Str12;
     od_init(&b, OD, 64); od_mandatory(&b, &ErrReg); od_sdo_server0(&b);
 #if CO_SSDO_N > 1
@@ -113,6 +115,7 @@ static void sdo_world_build(uint32_t nmt_operational)
     od_add(&b, CO_KEY(0x2020, 0, CO_OBJ_____R_), CO_TSTRING, (CO_DATA)&StrO3);
     od_add(&b, CO_KEY(0x2021, 0, CO_OBJ_____R_), CO_TSTRING, (CO_DATA)&StrO5);
     od_add(&b, CO_KEY(0x2022, 0, CO_OBJ_____R_), CO_TSTRING, (CO_DATA)&StrO12);
+    od_add(&b, CO_KEY(0x2023, 0, CO_OBJ_____R_), CO_TSTRING, (CO_DATA)&StrOV);
     od_add(&b, CO_KEY(0x2030, 0, CO_OBJ_D___R_), CO_TUNSIGNED8,  (CO_DATA)1);
     od_add(&b, CO_KEY(0x2030, 1, CO_OBJ_____RW), CO_TUNSIGNED32, (CO_DATA)&V32sub);
     od_add(&b, CO_KEY(0x2040, 0, CO_OBJ_____RW), &UtRange, (CO_DATA)&V32range);
@@ -130,6 +133,7 @@ static void sdo_world_build(uint32_t nmt_operational)
     sdo_def(O_STR3, 0x2020, 0, 1, 0, K_STRING, 3, Str3, 0, 0);
     sdo_def(O_STR5, 0x2021, 0, 1, 0, K_STRING, 5, Str5, 0, 0);
     sdo_def(O_STR12,0x2022, 0, 1, 0, K_STRING, 12, Str12, 0, 0);
+    sdo_def(O_STRV, 0x2023, 0, 1, 0, K_STRING, 9, StrV, 0, 0);
     sdo_def(O_SUB0, 0x2030, 0, 1, 0, K_BASIC, 1, 0, 1, 0);
     sdo_def(O_SUB1, 0x2030, 1, 1, 1, K_BASIC, 4, &V32sub, 0, 0);
     sdo_def(O_RANGE,0x2040, 0, 1, 1, K_RANGE, 4, &V32range, 0, 0);
@@ -146,7 +150,7 @@ static void sdo_world_build(uint32_t nmt_operational)
     W_REG(Node); W_REG(OD); W_REG(ErrReg); W_REG(SdoBuf); W_REG(TMem);
     W_REG(V8); W_REG(V16); W_REG(V32); W_REG(V32ro); W_REG(V32wo); W_REG(V32nid); W_REG(V32sub); W_REG(V32range); W_REG(V32user);
     W_REG(Dom3); W_REG(DomA); W_REG(DomB); W_REG(DomO3); W_REG(DomOA); W_REG(DomOB);
-    W_REG(StrO3); W_REG(StrO5); W_REG(StrO12);
+    W_REG(StrO3); W_REG(StrO5); W_REG(StrO12); W_REG(StrOV); W_REG(StrV);
     W_REG(MV);
     for (i = 0; i < CO_SSDO_N; i++) w_nohash_range(&Node.Sdo[i].Frm, sizeof Node.Sdo[i].Frm);   /* points into the stack */
 }
@@ -156,7 +160,7 @@ static void sdo_world_build(uint32_t nmt_operational)
  * and the read/write offsets of objects no server addresses are zeroed for hashing only.  The merged states are
  * assumed to have equal futures; the fine-grained explorations (coarse=0) check exactly that assumption to
  * their depth bound - stale-field reads such as the A3h-while-idle defect are found there. */
-static struct { CO_SDO sdo[CO_SSDO_N]; uint8_t buf[sizeof SdoBuf]; uint32_t off[6]; int active; } SdoSave;
+static struct { CO_SDO sdo[CO_SSDO_N]; uint8_t buf[sizeof SdoBuf]; uint32_t off[7]; int active; } SdoSave;
 static void sdo_prehash(int phase);
 static int sdo_find(uint16_t idx, uint8_t sub) { for (int i = 0; i < O_N; i++) if (OBJ[i].idx == idx && OBJ[i].sub == sub) return i; return -1; }
 static int sdo_index_exists(uint16_t idx)
@@ -195,12 +199,13 @@ static uint32_t f_mux(const uint8_t *d) { return ((uint32_t)d[1]) | ((uint32_t)d
 static int r_is_abort(const WFrame *r, int n) { return n == 1 && r[0].dlc == 8 && r[0].d[0] == 0x80; }
 
 static char sdo_diag[700];
+static const char *sdo_ctx = "";
 #define SDO_FAIL(sig, ...) do { snprintf(sdo_diag, sizeof sdo_diag, __VA_ARGS__); sdo_fail(sig, srvno, m, req, resp, nresp); return; } while (0)
 static void sdo_fail(const char *sig, int srvno, const SModel *m, const uint8_t *req, const WFrame *resp, int nresp)
 {
     char fr[64] = "-"; if (nresp > 0) w_fmt_frame(fr, sizeof fr, &resp[0]);
-    mc_fail(sig, "server %d in model state '%s' (object %04X:%02X), request %02X %02X %02X %02X %02X %02X %02X %02X -> %d frame(s), first %s: %s",
-            srvno, S_NAME[m->st], m->obj >= 0 ? OBJ[m->obj].idx : 0, m->obj >= 0 ? OBJ[m->obj].sub : 0,
+    mc_fail(sig, "%sserver %d in model state '%s' (object %04X:%02X), request %02X %02X %02X %02X %02X %02X %02X %02X -> %d frame(s), first %s: %s",
+            sdo_ctx, srvno, S_NAME[m->st], m->obj >= 0 ? OBJ[m->obj].idx : 0, m->obj >= 0 ? OBJ[m->obj].sub : 0,
             req[0], req[1], req[2], req[3], req[4], req[5], req[6], req[7], nresp, fr, sdo_diag);
 }
 
@@ -629,11 +634,11 @@ static void sdo_content_reset(void)
 
 static void sdo_prehash(int phase)
 {
-    uint32_t *offs[6] = { &DomO3.Offset, &DomOA.Offset, &DomOB.Offset, &StrO3.Offset, &StrO5.Offset, &StrO12.Offset };
-    void *odat[6] = { &DomO3, &DomOA, &DomOB, &StrO3, &StrO5, &StrO12 };
+    uint32_t *offs[7] = { &DomO3.Offset, &DomOA.Offset, &DomOB.Offset, &StrO3.Offset, &StrO5.Offset, &StrO12.Offset, &StrOV.Offset };
+    void *odat[7] = { &DomO3, &DomOA, &DomOB, &StrO3, &StrO5, &StrO12, &StrOV };
     if (phase == 0) {
         memcpy(SdoSave.sdo, Node.Sdo, sizeof SdoSave.sdo); memcpy(SdoSave.buf, SdoBuf, sizeof SdoBuf);
-        for (int k = 0; k < 6; k++) SdoSave.off[k] = *offs[k];
+        for (int k = 0; k < 7; k++) SdoSave.off[k] = *offs[k];
         for (int n = 0; n < CO_SSDO_N; n++) {
             CO_SDO *s = &Node.Sdo[n];
             if (SM[n].st != S_IDLE || s->Obj != 0 || s->Blk.State != BLK_IDLE) continue;
@@ -641,14 +646,14 @@ static void sdo_prehash(int phase)
             memset(&s->Seg, 0, sizeof s->Seg); memset(&s->Blk, 0, sizeof s->Blk); s->Blk.State = BLK_IDLE;
             memset(SdoBuf + (size_t)n * CO_SDO_BUF_BYTE, 0, CO_SDO_BUF_BYTE);
         }
-        for (int k = 0; k < 6; k++) {
+        for (int k = 0; k < 7; k++) {
             int used = 0;
             for (int n = 0; n < CO_SSDO_N; n++) if (Node.Sdo[n].Obj && (void *)Node.Sdo[n].Obj->Data == odat[k]) used = 1;
             if (!used) *offs[k] = 0;
         }
     } else {
         memcpy(Node.Sdo, SdoSave.sdo, sizeof SdoSave.sdo); memcpy(SdoBuf, SdoSave.buf, sizeof SdoBuf);
-        for (int k = 0; k < 6; k++) *offs[k] = SdoSave.off[k];
+        for (int k = 0; k < 7; k++) *offs[k] = SdoSave.off[k];
     }
 }
 
